@@ -139,8 +139,8 @@ type monitor struct {
 	unlocking   []bool // unlock has begun
 	fullClaim   []bool // Lock returned success and unlock has not begun: it claims all its keys
 	lastRel     int    // step of the latest release of any key
-	// implementation's per-key memory after the previous step, and the keys for which it shrank
-	// (a node vanished or its max commit ts went down): the list recycling forgot them
+	// implementation's per-key memory after the previous step, and the keys whose node vanished
+	// (the list recycling forgot them)
 	prevMax   map[string]uint64
 	dropped   map[string]int
 	bound     int
@@ -206,6 +206,8 @@ type stepInfo struct {
 	called   []int       // transactions whose Lock call began in this step
 	returned map[int]int // transaction -> verdict returned by acquire()/Lock() in this step
 	unlock   []int       // transactions whose unlock began in this step
+	// acquiring: the body of acquireSlot ran in this step (the only place where the list recycling runs)
+	acquiring bool
 }
 
 // observe digests one atomic step.
@@ -317,7 +319,10 @@ func (m *monitor) observe(si *stepInfo, s *snap, ctx func() string) {
 		}
 	}
 	for k, old := range m.prevMax {
-		if old > 0 && curMax[k] < old {
+		// the list recycling (known finding F28) runs inside acquireSlot only: a key whose remembered max commit ts
+		// shrinks in any other step (a release that overwrites it, say) was not recycled - a verdict missed because
+		// of that is reported as a plain stale-missed
+		if old > 0 && curMax[k] < old && si.acquiring {
 			if _, ok := m.dropped[k]; !ok {
 				m.dropped[k] = si.step
 				m.stats["probe.node-forgotten"]++
